@@ -1316,7 +1316,17 @@ class RewriteAtQuery(NodeTransformer):
                         annotation=self.replacement_node.value,
                     )
 
-                if idx is not None and len(node.args.defaults) > idx:
+                if idx is not None:
+                    # `defaults` aligns with the *last* `len(defaults)` positional args
+                    idx -= (
+                        len(node.args.args)
+                        - len(node.args.defaults)
+                        - int(
+                            len(node.args.args) > 0
+                            and node.args.args[0].arg in frozenset(("self", "cls"))
+                        )
+                    )
+                if idx is not None and len(node.args.defaults) > idx > -1:
                     new_default = get_value(self.replacement_node)
                     if new_default not in none_types:
                         node.args.defaults[idx] = new_default
